@@ -39,7 +39,7 @@ def run(ctx):
     for k in ("runs", "truth_checks", "adjusted"):
         st1[k] += st2[k]
     # approximate coordinates: every construction history of AcordModel.tla
-    K1, K2 = '{"polar", "inter", "resect", "trilat", "trav"}', '{"polar", "polarA", "resectA", "ddb"}'
+    K1, K2 = '{"polar", "inter", "resect", "trilat", "trav"}', '{"polar", "polarA", "resectA", "ddb", "fs2"}'
     KALL = '{"polar", "polarA", "polarZ", "inter", "interZ", "resect", "resectA", "trilat", "ddb", "fs2", "trav"}'
     K3 = '{"polar", "polarZ", "interZ", "inter"}'
     if q:
